@@ -442,7 +442,10 @@ func (e *Engine) invokeValue(st *State, f Value, args []Value, onRet func(*State
 	if fv.fn == nil && fv.builtin == "" {
 		panic(goPanic{site: "call of nil function"})
 	}
-	if fv.builtin == "noop" {
+	if fv.builtin == "noop" || fv.builtin == "ctxcancel" {
+		if fv.builtin == "ctxcancel" {
+			st.heap[fv.bind[0].(PtrV).obj] = ArrayV{[]Value{e.ts.True}}
+		}
 		if onRet != nil {
 			onRet(st, nil)
 		}
@@ -532,6 +535,11 @@ func (e *Engine) doCall(st *State, fr *Frame, instr *ssa.Call, c *ssa.CallCommon
 			fv := e.get(st, fr, c.Value).(FuncV)
 			if fv.fn == nil {
 				if fv.builtin == "noop" {
+					fr.ip++
+					return
+				}
+				if fv.builtin == "ctxcancel" {
+					st.heap[fv.bind[0].(PtrV).obj] = ArrayV{[]Value{e.ts.True}}
 					fr.ip++
 					return
 				}
